@@ -227,6 +227,9 @@ def build_src(sd, dims, kind):
 
 
 # --------------------------------------------------------------------------- specifications
+NESTED_STYLES = ["row", "col", "arrays"]
+
+
 def gen_poly(rng, kind, nv, ndim, ncomp=None):
     comps = []
     for _ in range(nv if ncomp is None else ncomp):
@@ -249,7 +252,25 @@ def gen_poly(rng, kind, nv, ndim, ncomp=None):
         if kind == "bool":
             terms = terms[:1]
         comps.append(terms)
-    return dict(k="poly", comps=comps, style=rng.choice(["tuple", "list", "array", "scalar"]))
+    style = rng.choice(["tuple", "list", "array", "scalar"])
+    if rng.random() < 0.06:
+        style = rng.choice(NESTED_STYLES)
+    return dict(k="poly", comps=comps, style=style)
+
+
+def gen_bad_poly(rng, kind, nv, ndim):
+    """a function of position whose return value has the wrong number of components (0, 1 .. nv-1, nv+1, nv+2, 2 nv;
+    as scalar / tuple / list / array / nested (1,k) / nested (k,1) / tuple of 1-element arrays), or the wrong type
+    (None / str, only where the count is wrong as well: what NumPy casts None / str to is NumPy's business)"""
+    cand = [nv + 1, nv + 2, 2 * nv, 0] + list(range(1, nv)) + ([1, 1, 1] if nv > 1 else [])
+    k = rng.choice([c for c in cand if c != nv])
+    leaf = gen_poly(rng, kind, nv, ndim, ncomp=k)
+    if k == 1 and rng.random() < 0.3:
+        leaf["comps"] = [[dict(c="0", e=[0] * ndim)]]            # the scalar 0 is special only as a constant
+    leaf["style"] = rng.choice(["tuple", "list", "array", "scalar" if k == 1 else "tuple"] + (NESTED_STYLES if k >= 1 else []))
+    if nv > 1 and rng.random() < 0.12:
+        leaf["comps"], leaf["ret"] = [], rng.choice(["none", "str"])
+    return leaf
 
 
 def gen_leaf(rng, kind, nv, ms, k1, k2, allow_field=True):
@@ -319,9 +340,9 @@ def gen_spec(rng, kind, nv, ms, subs):
 def gen_bad_leaf(rng, kind, nv, ms):
     """a leaf the property says must be rejected (wrong shape, component count or type)"""
     n = list(ms["n"])
-    opts = ["str", "none", "vec", "arr+1", "arrc+1", "poly", "fieldnv", "fieldout"]
+    opts = ["str", "none", "vec", "arr+1", "arrc+1", "poly", "poly", "fieldnv", "fieldout"]
     if nv > 1:
-        opts += ["scalar", "scalar"]
+        opts += ["scalar", "scalar", "poly"]
     k = rng.choice(opts)
     if k in ("str", "none"):
         return dict(k="bad", what=k)
@@ -341,7 +362,7 @@ def gen_bad_leaf(rng, kind, nv, ms):
             sh = n + [3]
         return dict(k="arr", shape=sh, data=[gen_num(rng, kind) for _ in range(int(np.prod(sh)))])
     if k == "poly":
-        return gen_poly(rng, kind, nv, len(n), ncomp=nv + rng.choice([1, 2]))
+        return gen_bad_poly(rng, kind, nv, len(n))
     if k == "fieldnv":
         return dict(k="field", src=gen_src(rng, ms, [0] * len(n), n, nv + 1, kind))
     return dict(k="field", src=gen_src(rng, ms, [0] * len(n), n, nv, kind, contained=False))
@@ -365,8 +386,11 @@ def make_callable(leaf, kind):
     comps, style = leaf["comps"], leaf.get("style", "tuple")
     cs = [[(num_py(t["c"], "complex" if kind == "complex" else "float"), t["e"]) for t in terms] for terms in comps]
     unit = float(leaf.get("unit", 1.0))
+    ret = leaf.get("ret")
 
     def f(p):
+        if ret is not None:
+            return None if ret == "none" else "abc"
         out = []
         for terms in cs:
             s = 0.0
@@ -383,6 +407,12 @@ def make_callable(leaf, kind):
             return list(out)
         if style == "array":
             return np.array(out)
+        if style == "row":                                   # shape (1, k)
+            return [list(out)]
+        if style == "col":                                   # shape (k, 1)
+            return [[x] for x in out]
+        if style == "arrays":                                # tuple of 1-element arrays (1d vector fields)
+            return tuple(np.array([x]) for x in out)
         return tuple(out)
 
     return f
@@ -479,7 +509,9 @@ def containing_cells(m, p):
     for a in range(m.region.ndim):
         lo, hi, k = Fraction(float(m.region.pmin[a])), Fraction(float(m.region.pmax[a])), int(m.n[a])
         c = (hi - lo) / k
-        cand = [j for j in range(k) if lo + j * c <= p[a] <= lo + (j + 1) * c]
+        q = (p[a] - lo) / c
+        j0 = q.numerator // q.denominator
+        cand = [j for j in (j0 - 1, j0, j0 + 1) if 0 <= j < k and lo + j * c <= p[a] <= lo + (j + 1) * c]
         per_axis.append(cand)
     return list(itertools.product(*per_axis))
 
@@ -522,8 +554,10 @@ def leaf_expect(leaf, kind, nv, centre, local, n_local, built, half=None):
             return None                                       # NumPy broadcasts it: observation only
         return "invalid"
     if k == "poly":
-        if len(leaf["comps"]) != nv:
+        if len(leaf["comps"]) != nv or leaf.get("ret"):
             return "invalid"
+        if leaf.get("style") in NESTED_STYLES:                # nv numbers in a nested shape: the code flattens them;
+            return None                                       # not judged, compared with the model
         return [poly_exact(leaf, centre)]
     src = built[id(leaf)]
     if src.nvdim != nv:
@@ -743,7 +777,7 @@ def gen_malformed(rng, tier):
     subs = gen_subs(rng, ms["n"], rng.choice([0, 1, 2]))
     kind = rng.choice(KINDS)
     nv = rng.choice([1, 2, 3, 4])
-    mode = rng.choice(["leaf", "leaf", "leaf", "dictleaf", "nodefault", "dfltlen", "obs"])
+    mode = rng.choice(["leaf", "leaf", "leaf", "dictleaf", "nodefault", "dfltlen", "dfltfunc", "obs"])
     n = ms["n"]
     if mode == "leaf" or (mode in ("dictleaf", "nodefault") and not subs):
         spec = gen_bad_leaf(rng, kind, nv, ms)
@@ -772,6 +806,11 @@ def gen_malformed(rng, tier):
     elif mode == "dfltlen":
         spec = gen_dict(rng, kind, nv, ms, subs, default_mode="const")
         spec["default"] = dict(k="vec", v=[gen_num(rng, kind) for _ in range(nv + 1)])
+    elif mode == "dfltfunc":
+        # the default is a function with the wrong number of components / a wrong return type: rejected as soon as
+        # one cell is left to the default (compared with the model also when every cell is covered)
+        spec = gen_dict(rng, kind, nv, ms, subs, default_mode="const")
+        spec["default"] = gen_bad_poly(rng, kind, nv, len(n))
     else:
         if rng.random() < 0.6 or nv == 1:
             spec = gen_obs_leaf(rng, kind, nv, ms)
@@ -783,10 +822,14 @@ def gen_malformed(rng, tier):
                 base=gen_leaf(rng, kind, nv, ms, [0] * len(n), list(n), allow_field=False), sub=rng.getrandbits(32))
 
 
-def gen_tol(rng, tier):
+def gen_tol(rng, tier, big=False):
     ndim = rng.choice([1, 2, 2, 3])
     n = [rng.randint(1, 5) for _ in range(ndim)]
-    scale = rng.choice([1e-9, 1e-6, 1e-3, 1.0, 10.0])
+    if big:                                                  # several hundred to thousands of cells along one axis
+        ndim = rng.choice([1, 1, 2])
+        n = [rng.randint(1, 2) for _ in range(ndim)]
+        n[rng.randrange(ndim)] = rng.randint(300, 2500)
+    scale = rng.choice([1e-12, 1e-10, 1e-9, 1e-9, 1e-6, 1e-3, 1.0, 10.0, 1e3, 1e6, 1e9])
     edge = [scale * rng.choice([1.0, 1 / 3, 0.7, 2.5]) * rng.uniform(0.5, 2) for _ in range(ndim)]
     pmin = [rng.choice([0.0, 1.0, -1.0, 17.3]) * e + rng.uniform(-1, 1) * e for e in edge]
     ms = dict(p1=pmin, p2=[a + e for a, e in zip(pmin, edge)], n=n, dims=None, bc="")
@@ -816,7 +859,72 @@ def gen_tol(rng, tier):
     else:
         spec = leaf([0] * ndim, n)
     return dict(kind="tol", mesh=ms, subs=subs, dtype=kind, nvdim=nv, vdims=None, dtype_arg=True, spec=spec,
-                scale=scale, sub=rng.getrandbits(32))
+                scale=scale, big=big, sub=rng.getrandbits(32))
+
+
+OFFSETS = [0.0, 0.0, 1.0, -1.0, -0.5, 17.3, -17.3, 1e3, -1e3, 1e6, -1e6]
+
+
+def gen_near(rng, tier, big=False):
+    """point look-up on arbitrary binary64 meshes: length scales 1e-12 .. 1e9, offsets up to 1e6 edge lengths, 1-4
+    dimensions, up to several thousand cells along one axis, every dtype; every cell holds its own value (cell ids),
+    sample points and lines close to cell faces and region boundaries (see near_points)"""
+    if big:
+        ndim = rng.choice([1, 1, 2, 3])
+        n = [rng.randint(1, 3) for _ in range(ndim)]
+        n[rng.randrange(ndim)] = rng.choice([rng.randint(300, 1200), rng.randint(1200, 6000)])
+        while int(np.prod(n)) > 12000:
+            n[int(np.argmin(n))] = 1
+    else:
+        ndim = rng.choice([1, 1, 2, 2, 3, 3, 4])
+        n = [rng.randint(1, 9) for _ in range(ndim)]
+        while int(np.prod(n)) > 240:
+            n[rng.randrange(ndim)] = rng.randint(1, 3)
+    if rng.random() < 0.75:
+        scale = 10.0 ** rng.randint(-12, 9) * rng.choice([1.0, 1.0, 2.5, 1 / 3, 0.7])
+    else:
+        scale = 2.0 ** rng.randint(-40, 30)
+    if rng.random() < 0.3:                                    # cell sizes that are 'round' decimal numbers (1e-9, 2.5e-10, 5 nm)
+        cellsz = [scale * rng.choice([1.0, 2.0, 2.5, 5.0, 0.5]) for _ in range(ndim)]
+        edge = [c * k for c, k in zip(cellsz, n)]
+    else:
+        edge = [scale * rng.choice([1.0, 1 / 3, 0.7, 2.5, 10.0]) * rng.uniform(0.5, 2) for _ in range(ndim)]
+    off = rng.choice(OFFSETS)
+    mode = rng.random()
+    if mode < 0.25:
+        pmin = [0.0] * ndim
+    elif mode < 0.4:
+        pmin = [-e / 2 for e in edge]                        # centred on the origin
+    elif mode < 0.5:
+        pmin = [-e for e in edge]                            # pmax = 0
+    else:
+        pmin = [off * e + rng.uniform(-1, 1) * e for e in edge]
+    pmax = [a + e for a, e in zip(pmin, edge)]
+    p1, p2 = list(pmin), list(pmax)
+    for a in range(ndim):                                    # corners in any order
+        if rng.random() < 0.3:
+            p1[a], p2[a] = p2[a], p1[a]
+    ms = dict(p1=p1, p2=p2, n=n, dims=None, bc="")
+    return dict(kind="near", mesh=ms, subs=[], dtype=rng.choice(["float", "float", "int", "complex", "bool"]),
+                nvdim=rng.choice([1, 1, 2, 3]), vdims=None, dtype_arg=True, spec=dict(k="ids"), scale=scale, big=big,
+                offset=(off if mode >= 0.5 else 0.0), sub=rng.getrandbits(32))
+
+
+def ids_leaf(n, nv, kind):
+    """per-cell array in which face neighbours always differ: float / int / complex: cell id (C order) * (component + 1)
+    (+ 1/2, + i id); bool: parity of the index sum (+ component)"""
+    data = []
+    for flat, idx in enumerate(itertools.product(*[range(k) for k in n])):
+        for c in range(nv):
+            if kind == "bool":
+                data.append(str((sum(idx) + c) % 2))
+            elif kind == "int":
+                data.append(str((flat + 1) * (c + 1)))
+            elif kind == "complex":
+                data.append([str((flat + 1) * (c + 1)), str(-flat)])
+            else:
+                data.append(Q(Fraction(2 * (flat + 1) * (c + 1) + 1, 2)))
+    return dict(k="arr", shape=list(n) + [nv], data=data)
 
 
 def cases(rng, tier):
@@ -835,7 +943,9 @@ def cases(rng, tier):
         if k % 3 == 0:
             yield gen_malformed(rng, tier)
         if k % 4 == 0:
-            yield gen_tol(rng, tier)
+            yield gen_tol(rng, tier, big=(k % 80 == 40))
+        if k % 5 == 0:
+            yield gen_near(rng, tier, big=(k % 50 == 25))
 
 
 def search(case, rng):
@@ -878,7 +988,111 @@ def exact_cell(pmin, cell, n, p):
     return tuple(idx)
 
 
-def probe(f, case, rng, fail, exact=True):
+# rounding band of the look-up floor((p - pmin) / cell) in binary64 (four roundings: the subtraction, the edge length, the
+# cell size, the quotient; each <= 2^-53 relative): the quotient q carries an error <= 2^-51 |q|.  A point closer than
+# 2^-49 (|q| + 1) cells to a face may be attributed to either neighbour; everywhere else the containing cell is demanded.
+BAND = Fraction(1, 2**49)
+REL = [Fraction(1, 10**k) for k in range(1, 16)]
+
+
+def allowed_cells(pmin, cell, n, p):
+    """multi-indices the look-up may return for point p: the cell containing p, plus the neighbour across a face that
+    is closer than the rounding band; points outside (accepted within the region's tolerance) go to the boundary cell"""
+    per_axis = []
+    for a, c, k, x in zip(pmin, cell, n, p):
+        q = (x - a) / c
+        j = q.numerator // q.denominator
+        band = BAND * (abs(q) + 1)
+        cand = {j}
+        if q - j <= band:
+            cand.add(j - 1)
+        if (j + 1) - q <= band:
+            cand.add(j + 1)
+        per_axis.append(sorted({min(max(i, 0), k - 1) for i in cand}))
+    return list(itertools.product(*per_axis))
+
+
+def face_dist(pmin, cell, p):
+    ds = []
+    for a, c, x in zip(pmin, cell, p):
+        q = (Fraction(x) - a) / c
+        fr = q - (q.numerator // q.denominator)
+        ds.append(min(fr, 1 - fr))
+    return min(ds)
+
+
+def region_tol(pmin, pmax, tolf, x):
+    """what Region.__contains__ adds to a face when it compares coordinate x with it (np.isclose: atol + rtol |x|)"""
+    return min(b - a for a, b in zip(pmin, pmax)) * tolf + tolf * abs(x)
+
+
+def near_points(rng, pmin, pmax, cell, n, tolf, count, dyadic):
+    """points at relative distances 1e-1 .. 1e-15 of a cell (exact regime: 2^-10 .. 2^-36) from a cell face, on either
+    side of it, for interior faces and for the faces of the region (both sides: just inside, outside within the region's
+    tolerance, outside beyond it - never near the tolerance threshold itself); some near several faces at once (edges,
+    corners).  Returns [(tag, [float])]"""
+    ndim = len(n)
+    out = []
+    for _ in range(count):
+        idx = [rng.randrange(k) if rng.random() < 0.6 else rng.choice([0, k - 1]) for k in n]
+        p = []
+        for a in range(ndim):
+            t = Fraction(rng.randint(1, 15), 16) if dyadic else Fraction(rng.uniform(0.05, 0.95))
+            p.append(pmin[a] + (idx[a] + t) * cell[a])
+        ax = rng.randrange(ndim)
+        for a in [ax] + [b for b in range(ndim) if b != ax and rng.random() < 0.25]:
+            upper = rng.random() < 0.5
+            face = pmin[a] + (idx[a] + (1 if upper else 0)) * cell[a]
+            if dyadic:
+                d = Fraction(1, 2 ** rng.choice([10, 20, 30, 36]))
+            else:
+                d = rng.choice(REL) * (1 if rng.random() < 0.4 else Fraction(rng.uniform(1, 9.99)))
+            into_cell = rng.random() < 0.5
+            sgn = (-1 if upper else 1) * (1 if into_cell else -1)
+            x = face + sgn * d * cell[a]
+            if x < pmin[a] or x > pmax[a]:
+                if dyadic:
+                    x = face - sgn * d * cell[a]
+                else:
+                    tol = region_tol(pmin, pmax, tolf, face)
+                    dist = d * cell[a]
+                    if tol / 4 < dist < 4 * tol:
+                        dist = tol / 8 if rng.random() < 0.5 else 8 * tol
+                    x = face + sgn * dist
+            p[a] = x
+        pf = [float(x) for x in p]
+        tag = "near"
+        for a, x in enumerate(pf):
+            x = Fraction(x)
+            dist = max(pmin[a] - x, x - pmax[a])
+            if dist > 0:
+                tol = region_tol(pmin, pmax, tolf, x)
+                if dist >= 3 * tol:
+                    tag = "near-outside"
+                elif dist > tol / 3:
+                    tag = None                                 # too close to the tolerance threshold (no property pins it here)
+                    break
+                elif tag == "near":
+                    tag = "near-intol"
+        if tag is not None:
+            out.append((tag, pf))
+    return out
+
+
+def point_form(rng, p):
+    form = rng.choice(["tuple", "list", "array", "npfloat", "scalar" if len(p) == 1 else "tuple"])
+    if form == "scalar":
+        return form, p[0]
+    if form == "list":
+        return form, list(p)
+    if form == "array":
+        return form, np.array(p)
+    if form == "npfloat":
+        return form, tuple(np.float64(x) for x in p)
+    return "tuple", tuple(p)
+
+
+def probe(f, case, rng, fail, exact=True, nnear=0):
     """sample points, components, iteration and lines of field f; oracle on the real code alone"""
     mesh = f.mesh
     pmin = [Fraction(float(x)) for x in mesh.region.pmin]
@@ -909,11 +1123,34 @@ def probe(f, case, rng, fail, exact=True):
     q[ax] = float(pmin[ax] - cell[ax] / 2)
     pts.append(("outside", q))
     pts.append(("outside", [float(pmin[0])] * (ndim + 1)))
+    tolf = Fraction(float(mesh.region.tolerance_factor))
+    pts += near_points(rng, pmin, pmax, cell, n, tolf, nnear, dyadic=exact)
     calls = []
     for tag, p in pts:
-        st, v = _err(lambda p=p: f(p))
+        form, arg = point_form(rng, p) if tag.startswith("near") else ("list", p)
+        st, v = _err(lambda arg=arg: f(arg))
         row = [val_c(x) for x in np.asarray(v).reshape(-1).tolist()] if st == "ok" else None
         calls.append(dict(tag=tag, p=Qs(p), st=st, row=[num_j(c) for c in row] if row is not None else None))
+        if tag.startswith("near"):
+            # rows of the cells the look-up may return (rounding band); the model is compared where that is one cell
+            # (exact regime: always - dyadic points, no rounding)
+            cand = allowed_cells(pmin, cell, n, [Fraction(x) for x in p])
+            calls[-1]["clear"] = exact or len(cand) == 1
+            calls[-1]["form"] = form
+            if tag == "near-outside":                        # acceptance is compared with the model (region tolerance)
+                if st == "ok" and (len(row) != nv or row not in [row_c(f.array, c) for c in cand]):
+                    fail(f"field({p}) [{form}] just outside the region is accepted and returns {np.asarray(v).tolist()}, "
+                         f"not the value of the adjacent cell {cand}")
+                continue
+            if st != "ok":
+                if tag == "near":
+                    fail(f"sampling at a point of the region ({tag}, {form}) {p} raised {v}")
+                continue
+            if len(row) != nv or row not in [row_c(f.array, c) for c in cand]:
+                fail(f"field({p}) [{form}] = {np.asarray(v).tolist()} is not the stored value "
+                     f"{[f.array[c].tolist() for c in cand]} of the cell {cand} containing the point "
+                     f"(distance to the nearest face in cells: {float(face_dist(pmin, cell, p)):.3g})")
+            continue
         if tag == "outside":
             if st == "ok":
                 fail(f"sampling outside the region accepted: {p}")
@@ -968,6 +1205,18 @@ def probe(f, case, rng, fail, exact=True):
             p1 = [a + Fraction(rng.random()) * (b - a) for a, b in zip(pmin, pmax)]
             p2 = [a + Fraction(rng.random()) * (b - a) for a, b in zip(pmin, pmax)] if not bad else p2
             m = rng.randint(1, 9)
+            if trial == 1 or (nnear > 8 and not bad):
+                # every point of the line at the same small distance (1e-1 .. 1e-15 of a cell) from cell faces:
+                # p1 = pmin + (i + t) cell, p2 = p1 + m s cell with whole steps s per axis
+                i1 = [rng.randrange(k) for k in n]
+                m = rng.randint(1, 8)
+                stp = [rng.randint(-(i // m), (k - 1 - i) // m) for i, k in zip(i1, n)]
+                t = []
+                for _ in n:
+                    d = rng.choice(REL) * (1 if rng.random() < 0.4 else Fraction(rng.uniform(1, 9.99)))
+                    t.append(rng.choice([d, 1 - d, 1 - d, Fraction(rng.uniform(0.05, 0.95))]))
+                p1 = [a + (i + tt) * c for a, i, tt, c in zip(pmin, i1, t, cell)]
+                p2 = [x + m * s_ * c for x, s_, c in zip(p1, stp, cell)]
         p1f, p2f = [float(x) for x in p1], [float(x) for x in p2]
         st, ln = _err(lambda: f.line(p1=p1f, p2=p2f, n=m + 1))
         rec = dict(p1=Qs(p1f), p2=Qs(p2f), n=m + 1, st=st, bad=bad)
@@ -1019,6 +1268,11 @@ def probe(f, case, rng, fail, exact=True):
             if [val_c(x) for x in sv.tolist()] != [val_c(x) for x in Vv[j].tolist()]:
                 fail(f"line value {j} {Vv[j].tolist()} is not the field sampled at that point {sv.tolist()}")
                 break
+            cand = allowed_cells(pmin, cell, n, PF[j])
+            if [val_c(x) for x in Vv[j].tolist()] not in [row_c(f.array, c) for c in cand]:
+                fail(f"line value {j} {Vv[j].tolist()} at point {P[j].tolist()} is not the stored value "
+                     f"{[f.array[c].tolist() for c in cand]} of the cell {cand} containing that point")
+                break
             d2 = sum((a - b) ** 2 for a, b in zip(PF[j], PF[0]))
             rj = Fraction(float(r[j]))
             if abs(rj * rj - d2) > Fraction(2) ** -48 * max(d2, Fraction(1, 10**300)):
@@ -1037,6 +1291,26 @@ def probe(f, case, rng, fail, exact=True):
     return out
 
 
+def fn_tags(where, leaf, nv):
+    if leaf["k"] != "poly":
+        return []
+    k = len(leaf["comps"])
+    if leaf.get("ret"):
+        return [f"fn:{where}:returns-{leaf['ret']}"]
+    cnt = "right" if k == nv else "0" if k == 0 else "1-for-more" if k == 1 else "fewer" if k < nv else "more"
+    return [f"fn:{where}:count-{cnt}", f"fn:style-{leaf.get('style', 'tuple')}:count-{'right' if k == nv else 'wrong'}"]
+
+
+def tol_tags(case, mesh):
+    sc = float(np.min(mesh.cell))
+    edges = [float(b) - float(a) for a, b in zip(mesh.region.pmin, mesh.region.pmax)]
+    far = max(max(abs(float(a)), abs(float(b))) / e for a, b, e in zip(mesh.region.pmin, mesh.region.pmax, edges))
+    nmax = int(max(mesh.n))
+    return [f"cell-decade:1e{math.floor(math.log10(sc))}",
+            "offset/edge:" + ("<=1" if far <= 1 else "<=30" if far <= 30 else "<=3e3" if far <= 3e3 else ">3e3"),
+            "nmax:" + ("<10" if nmax < 10 else "<300" if nmax < 300 else "<1200" if nmax < 1200 else ">=1200")]
+
+
 def tol_source(case, mesh, rng2):
     ts = case["spec"]["tol_src"]
     ns = [int(k) * ts["ratio"] for k in mesh.n]
@@ -1053,7 +1327,7 @@ def run_impl(case):
     obs = {"oracle": [], "tags": [f"kind:{case['kind']}", f"dtype:{kind}", f"nvdim:{nv}", f"ndim:{len(case['mesh']['n'])}",
                                   f"subs:{len(case['subs'])}"]}
     fail = obs["oracle"].append
-    exact = case["kind"] != "tol"
+    exact = case["kind"] not in ("tol", "near")
     st, mesh = _err(lambda: build_mesh(case["mesh"], case["subs"]) if exact else None)
     if not exact:
         base = fieldio.build_mesh(case["mesh"])
@@ -1070,6 +1344,11 @@ def run_impl(case):
     dims = list(mesh.region.dims)
     built = {}
     spec = case["spec"]
+    if spec["k"] == "ids":
+        spec = ids_leaf([int(k) for k in mesh.n], nv, kind)
+        obs["tags"].append("spec:ids")
+    if case["kind"] in ("tol", "near"):
+        obs["tags"] += tol_tags(case, mesh)
     if spec["k"] == "field" and "tol_src" in spec:
         src = tol_source(case, mesh, random.Random(spec["tol_src"]["seed"]))
         built[id(spec)] = src
@@ -1080,6 +1359,12 @@ def run_impl(case):
     if spec["k"] == "dict":
         for _, l in spec["items"]:
             obs["tags"].append("dictleaf:" + l["k"])
+    leaves = [("leaf", spec)] if spec["k"] != "dict" else \
+        [("dictleaf", l) for _, l in spec["items"]] + ([("default", spec["default"])] if spec["default"] else [])
+    if case["kind"] == "init":
+        leaves.append(("rejected-" + case["via"], case["bad"]))
+    for where, l in leaves:
+        obs["tags"] += fn_tags(where, l, nv)
     scale = 1.0
     validity = spec_validity(spec, kind, nv, mesh, built)
     obs["validity"] = validity
@@ -1138,8 +1423,13 @@ def run_impl(case):
     if case["kind"] == "malformed":
         return obs
     obs["field"] = vf_json(f, obs["mesh_json"])
-    obs["probe"] = probe(f, case, rng, fail, exact=exact)
-    if case["kind"] == "tol":
+    obs["probe"] = probe(f, case, rng, fail, exact=exact,
+                         nnear={"init": 4, "tol": 6, "near": 60 if case.get("big") else 36}.get(case["kind"], 0))
+    for c in obs["probe"]["calls"]:
+        if c["tag"].startswith("near"):
+            obs["tags"].append(f"{c['tag']}:{c['st']}" + ("" if c.get("clear", True) else ":in-rounding-band"))
+            obs["tags"].append("pointform:" + c["form"])
+    if case["kind"] in ("tol", "near"):
         return obs
     # ---- a second, valid assignment through update_field_values, then a rejected one
     built2 = {}
@@ -1197,7 +1487,11 @@ def describe(spec):
     if k == "arr":
         return f"array of shape {tuple(spec['shape'])}"
     if k == "poly":
-        return f"callable returning {len(spec['comps'])} values"
+        if spec.get("ret"):
+            return f"callable returning {'None' if spec['ret'] == 'none' else 'a string'}"
+        return f"callable returning {len(spec['comps'])} values ({spec.get('style', 'tuple')})"
+    if k == "ids":
+        return "per-cell array of cell ids"
     if k == "field":
         s = spec.get("src")
         return f"field(nvdim={s['nvdim']}, n={s['n']}, {s['p1']}..{s['p2']})" if s else "field"
@@ -1209,6 +1503,10 @@ def model_requests(case, obs):
     if obs.get("skip") or "mesh_json" not in obs:
         return []
     mj, nv = obs["mesh_json"], case["nvdim"]
+    if case.get("big") and case["spec"]["k"] == "field":
+        # the model's nearest-centre scan is quadratic in the source size: a source field with thousands of cells is
+        # judged by the oracle on the real code alone (containing-cell test for every target cell)
+        return []
     return _model_requests(case, obs, mj, nv)
 
 
@@ -1280,7 +1578,7 @@ def compare(case, obs, rs):
     dis = []
     if not rs:
         return dis
-    exact = case["kind"] != "tol"
+    exact = case["kind"] not in ("tol", "near")
     if case["kind"] == "malformed" and case["via"] != "ctor":
         cmp_after(f"{case['via']}({describe(case['spec'])})", obs["st"], obs["after"], rs[0], dis)
         return dis
@@ -1299,7 +1597,7 @@ def compare(case, obs, rs):
     for c, m in zip(pr["calls"], mp["calls"]):
         if ("ok" in m) != (c["st"] == "ok"):
             dis.append(f"field({c['p']}) [{c['tag']}]: impl {c['st']} vs model {m}")
-        elif c["st"] == "ok":
+        elif c["st"] == "ok" and c.get("clear", True):
             cmp_nums(f"field({c['p']}) [{c['tag']}]", c["row"], m["ok"], True, dis)
     for c, m in zip(pr["comps"], mp["comps"]):
         if ("ok" in m) != (c["st"] == "ok"):
